@@ -66,7 +66,10 @@ func sortedSeq(s []int) bool {
 // SliceOps: Slice from an arbitrary valid heap (FromSlice of a symbolic slice assumed to be a heap), then
 // arbitrary operations; heap order on Values after every call, multiset preserved, Pop/Peek minimal.
 func SliceOps() {
-	n := vx.Choose(vx.Param("maxn", 4) + 1)
+	n := vx.Param("fixedn", -1)
+	if n < 0 {
+		n = vx.Choose(vx.Param("maxn", 4) + 1)
+	}
 	v := symInts(n, "e")
 	if vx.Param("arbitrary", 0) == 0 {
 		vx.Assume(isHeap(v))
@@ -77,7 +80,14 @@ func SliceOps() {
 	vx.Assert(sameMultiset(h.Values, model), "FromSlice keeps the multiset")
 	nops := vx.Param("ops", 2)
 	for step := 0; step < nops; step++ {
-		switch vx.Choose(6) {
+		var op int
+		if vx.Param("step", 0) == 1 {
+			// inductive step from an arbitrary valid heap: only the single-element operations
+			op = []int{0, 1, 3, 4}[vx.Choose(4)]
+		} else {
+			op = vx.Choose(6)
+		}
+		switch op {
 		case 0:
 			x := vx.Int("x")
 			h.Push(x)
@@ -162,15 +172,26 @@ func HeapOps() {
 	if n0 == 0 {
 		n0 = vx.Choose(vx.Param("init", 3) + 1)
 	}
+	init := symInts(n0, "e")
+	if vx.Param("heapinit", 0) == 1 {
+		// an arbitrary valid heap: pushing the elements of a slice that already satisfies the heap order in index
+		// order moves nothing, so element i sits at index i
+		vx.Assume(isHeap(init))
+	}
 	for i := 0; i < n0; i++ {
-		hs = append(hs, &handle{e: h.Push(vx.Int("e")), live: true, own: true})
+		hs = append(hs, &handle{e: h.Push(init[i]), live: true, own: true})
 	}
 	checkHandles(&h, &f, hs)
 	nops := vx.Param("ops", 2)
 	for step := 0; step < nops; step++ {
-		op := vx.Choose(7)
-		if vx.Param("onlyremovefix", 0) == 1 {
-			op = 3 + op%2
+		var op int
+		if vx.Param("step", 0) == 1 {
+			op = []int{0, 1, 3, 4}[vx.Choose(4)]
+		} else {
+			op = vx.Choose(7)
+			if vx.Param("onlyremovefix", 0) == 1 {
+				op = 3 + op%2
+			}
 		}
 		switch op {
 		case 0:
@@ -319,8 +340,14 @@ func (c *intHeap) Pop() int {
 
 // GenericOps: heapz.Init/Push/Pop/Remove/Fix on a caller-supplied container.
 func GenericOps() {
-	n := vx.Choose(vx.Param("maxn", 4) + 1)
+	n := vx.Param("fixedn", -1)
+	if n < 0 {
+		n = vx.Choose(vx.Param("maxn", 4) + 1)
+	}
 	c := &intHeap{s: symInts(n, "e")}
+	if vx.Param("heapinit", 0) == 1 {
+		vx.Assume(isHeap(c.s))
+	}
 	model := clone(c.s)
 	heapz.Init[int](c)
 	vx.Assert(isHeap(c.s), "Init establishes the heap order on the container")
@@ -360,7 +387,245 @@ func GenericOps() {
 }
 
 var Harnesses = map[string]func(){
-	"vh/c04.SliceOps":   SliceOps,
-	"vh/c04.HeapOps":    HeapOps,
-	"vh/c04.GenericOps": GenericOps,
+	"vh/c04.SliceOps":    SliceOps,
+	"vh/c04.HeapOps":     HeapOps,
+	"vh/c04.GenericOps":  GenericOps,
+	"vh/c04.SliceStep":   SliceStep,
+	"vh/c04.HeapStep":    HeapStep,
+	"vh/c04.GenericStep": GenericStep,
+}
+
+// ---- inductive step from an arbitrary valid heap of a fixed larger size ----
+//
+// Elements are the distinct identifiers 0..n (the heaps are generic and never look into an element except
+// through the comparator), their priorities are symbolic: keys[id]. The comparator is keys[a] < keys[b], so
+// every strict weak order on n+1 elements (ties included) is covered, and the state before the operation is
+// every array satisfying the heap order (assumed, not constructed by a history). One operation with every
+// choice of index / handle follows; the heap order between every element and its parent, the content and
+// the handles' indices are asserted afterwards.
+
+type keyed struct{ keys []int }
+
+func (k *keyed) less(a, b int) bool { return k.keys[a] < k.keys[b] }
+
+func (k *keyed) isHeap(v []int) bool {
+	r := true
+	for i := 1; i < len(v); i++ {
+		r = vx.And(r, !k.less(v[i], v[(i-1)/2]))
+	}
+	return r
+}
+
+func (k *keyed) noneBefore(x int, rest []int) bool {
+	r := true
+	for _, e := range rest {
+		r = vx.And(r, !k.less(e, x))
+	}
+	return r
+}
+
+func ids(n int) []int {
+	s := make([]int, n)
+	for i := range s {
+		s[i] = i
+	}
+	return s
+}
+
+// sameIDs: concrete multiset comparison of identifier slices.
+func sameIDs(a, b []int) bool {
+	if len(a) != len(b) {
+		return false
+	}
+	cnt := make([]int, len(a)+len(b)+2)
+	for _, x := range a {
+		if x < 0 || x >= len(cnt) {
+			return false
+		}
+		cnt[x]++
+	}
+	for _, x := range b {
+		if x < 0 || x >= len(cnt) {
+			return false
+		}
+		cnt[x]--
+	}
+	for _, c := range cnt {
+		if c != 0 {
+			return false
+		}
+	}
+	return true
+}
+
+func without(s []int, x int) []int {
+	var out []int
+	for _, e := range s {
+		if e != x {
+			out = append(out, e)
+		}
+	}
+	return out
+}
+
+// SliceStep: heapz.Slice.
+func SliceStep() {
+	n := vx.Param("n", 12)
+	k := &keyed{keys: symInts(n+1, "k")}
+	v := ids(n)
+	vx.Assume(k.isHeap(v))
+	// pushing the elements of a valid heap in index order moves nothing (FromSlice would fork on the order of
+	// every pair of siblings)
+	h := heapz.NewSlice[int](0, k.less)
+	for _, id := range v {
+		h.Push(id)
+	}
+	vx.Assert(sameIDs(h.Values, v) && h.Values[0] == 0 && h.Values[n-1] == n-1, "pushing the elements of a valid heap in index order moves nothing")
+	model := clone(v)
+	switch vx.Choose(4) {
+	case 0:
+		h.Push(n)
+		model = append(model, n)
+	case 1:
+		x, ok := h.Pop()
+		vx.Assert(ok, "Slice.Pop succeeds on a non-empty heap")
+		vx.Assert(k.noneBefore(x, model), "Slice.Pop returns an element that no element precedes")
+		model = without(model, x)
+	case 2:
+		i := vx.Choose(n+2) - 1
+		before := clone(h.Values)
+		x, ok := h.Remove(i)
+		vx.Assert(ok == (i >= 0 && i < n), "Slice.Remove(i) succeeds exactly for indices in range")
+		if ok {
+			vx.Assert(x == before[i], "Slice.Remove(i) removes the element at index i")
+			model = without(model, x)
+		}
+	case 3:
+		i := vx.Choose(n+2) - 1
+		if i >= 0 && i < n {
+			k.keys[h.Values[i]] = vx.Int("nk")
+		}
+		h.Fix(i)
+	}
+	vx.Assert(h.Len() == len(model), "Slice.Len is the multiset size")
+	vx.Assert(sameIDs(h.Values, model), "nothing is lost or duplicated")
+	vx.AssertSig(k.isHeap(h.Values), "Slice.Values satisfies the heap order after one operation on an arbitrary valid heap", "heap-order-step")
+}
+
+// HeapStep: heapz.Heap with handles.
+func HeapStep() {
+	n := vx.Param("n", 12)
+	k := &keyed{keys: symInts(n+1, "k")}
+	v := ids(n)
+	vx.Assume(k.isHeap(v))
+	h := heapz.New[int](0, k.less)
+	var hs []*heapz.Element[int]
+	for i := 0; i < n; i++ {
+		hs = append(hs, h.Push(i))
+	}
+	for i, e := range hs {
+		vx.Assert(e.Index() == i, "pushing the elements of a valid heap in index order moves nothing")
+	}
+	live := make([]bool, n+1)
+	for i := 0; i < n; i++ {
+		live[i] = true
+	}
+	switch vx.Choose(4) {
+	case 0:
+		hs = append(hs, h.Push(n))
+		live[n] = true
+	case 1:
+		e := h.Pop()
+		vx.Assert(e != nil, "Heap.Pop succeeds on a non-empty heap")
+		vx.Assert(k.noneBefore(e.Value, v), "Heap.Pop returns an element that no element precedes")
+		vx.Assert(hs[e.Value] == e, "Heap.Pop returns the handle of its element")
+		live[e.Value] = false
+	case 2:
+		e := hs[vx.Choose(n)]
+		h.Remove(e)
+		live[e.Value] = false
+	case 3:
+		e := hs[vx.Choose(n)]
+		k.keys[e.Value] = vx.Int("nk")
+		h.Fix(e)
+	}
+	cnt := 0
+	for id, e := range hs {
+		if live[id] {
+			cnt++
+		} else {
+			vx.AssertSig(e.Index() == -1, "an element that has left the heap reports Index() == -1", "stale-handle-index")
+		}
+	}
+	vx.Assert(h.Len() == cnt, "Heap.Len is the number of live elements")
+	byIdx := make([]int, cnt)
+	for i := range byIdx {
+		byIdx[i] = -1
+	}
+	for id, e := range hs {
+		if !live[id] {
+			continue
+		}
+		i := e.Index()
+		ok := i >= 0 && i < cnt
+		vx.Assert(ok, "a live handle reports an index inside the heap")
+		if ok {
+			vx.Assert(byIdx[i] == -1, "live handles report distinct indices")
+			byIdx[i] = id
+		}
+	}
+	vx.AssertSig(k.isHeap(byIdx), "the heap order holds between every element and its parent after one operation on an arbitrary valid heap", "heap-order-step")
+	if e := h.Peek(); e != nil {
+		vx.Assert(e.Index() == 0 && byIdx[0] == e.Value, "Peek returns the element at index 0")
+	}
+}
+
+type idHeap struct {
+	s []int
+	k *keyed
+}
+
+func (c *idHeap) Len() int           { return len(c.s) }
+func (c *idHeap) Less(i, j int) bool { return c.k.less(c.s[i], c.s[j]) }
+func (c *idHeap) Swap(i, j int)      { c.s[i], c.s[j] = c.s[j], c.s[i] }
+func (c *idHeap) Push(x int)         { c.s = append(c.s, x) }
+func (c *idHeap) Pop() int {
+	n := len(c.s) - 1
+	x := c.s[n]
+	c.s = c.s[:n]
+	return x
+}
+
+// GenericStep: heapz.Push/Pop/Remove/Fix on a caller-supplied container.
+func GenericStep() {
+	n := vx.Param("n", 12)
+	k := &keyed{keys: symInts(n+1, "k")}
+	v := ids(n)
+	vx.Assume(k.isHeap(v))
+	c := &idHeap{s: clone(v), k: k}
+	model := clone(v)
+	switch vx.Choose(5 - vx.Param("noinit", 0)) {
+	case 0:
+		heapz.Push[int](c, n)
+		model = append(model, n)
+	case 1:
+		x := heapz.Pop[int](c).(int)
+		vx.Assert(k.noneBefore(x, model), "generic Pop returns a minimal element")
+		model = without(model, x)
+	case 2:
+		i := vx.Choose(n)
+		want := c.s[i]
+		x := heapz.Remove[int](c, i).(int)
+		vx.Assert(x == want, "generic Remove(i) removes the element at index i")
+		model = without(model, x)
+	case 3:
+		i := vx.Choose(n)
+		k.keys[c.s[i]] = vx.Int("nk")
+		heapz.Fix[int](c, i)
+	case 4:
+		heapz.Init[int](c)
+		vx.Assert(c.s[0] == 0 && c.s[n-1] == n-1, "Init of a valid heap moves nothing")
+	}
+	vx.Assert(sameIDs(c.s, model), "the generic functions keep the multiset")
+	vx.AssertSig(k.isHeap(c.s), "the generic functions maintain the heap order (one operation on an arbitrary valid heap)", "heap-order-step")
 }
